@@ -28,6 +28,11 @@ CHECKS.update({
    text="RxTriage.tla transcribes the receive path's byte-level triage (Ethernet check, ethertype/source filter, EtherCAT header, length slicing, index extraction, search among slots awaiting a response, claim, copy) as the operator Triage over byte sequences and slot-state vectors. TLC enumerates every slot-state vector (11 preparations per slot, 1 and 2 slots) times every structure-aware mutation of a valid reply (every truncation, ethertype, own/foreign source, protocol nibble, 11 boundary values of the length field, matching/stale/absent indices, with and without enough trailing bytes) and proves OnlyAcceptedSlotChanges, AcceptedOnlyIntoAwaitingSlot, OwnAndForeignIgnored, NoMatchNoAccept; the same cases and seeded arbitrary byte strings (up to 4 slots) are delivered to the real PduRx with slot states prepared through the real API, every slot (state, index word, whole buffer) is snapshotted before and after, and TLC checks the property clauses on the snapshots (monitor) and equality with Triage (conformance).",
    note="Deliveries are sequential; 'accepted into' = the slot the receive side claimed (an oversize matching frame may leave it RxBusy); panics are caught and reported as violations."),
 })
+CHECKS.update({
+ "C19": dict(engine="wirelayout", section="6/C19",
+   text="WireLayout.tla defines the positional reference semantics of a declared layout (Pack / Unpack over bit positions, Valid = the derive macro's alignment rules, EnumDecode with Rust's numbering of implicit discriminants). TLC checks NoOverlap, RoundTrip and UndeclaredZero exhaustively for all valid layouts of up to 2-3 fields over widths {1,2,3,5,7,8,16,32,64} and skips {0,1,3,8} and draws several hundred layouts of up to 12 fields by simulation; each layout is turned into a #[derive(EtherCrabWireReadWrite)] type (with generated enums: explicit/implicit discriminants, alternatives, catch-all, default), compiled against the in-repo macro, and exercised with seeded values and buffers (pack, pack_to_slice into exact/short/long destinations, unpack_from_slice of long/exact/short arbitrary buffers, round trip); TLC (WireLayoutTrace) requires every packed image and every unpacked field to equal Pack / Unpack / EnumDecode.",
+   note="Field kinds generated so far: sub-byte u8, bool, u16..u64 / i16..i64, [u8; N], u8/u16-repr enums; nested structs and the crate's own wire types are not generated yet. The TLA+ Pack/Unpack operators are the trusted reference."),
+})
 NOT_BUILT = {}
 def main():
     props = [json.loads(l) for l in open(os.path.join(V, "properties.jsonl"))]
@@ -65,6 +70,8 @@ def main():
                  kind_free_text="FrameBuild.tla + FrameBuildMC/Trace; harness framebuild (push programs on a real CreatedFrame)"),
             dict(name="rxtriage", path="checks/rxtriage.py", serves_properties=["C05"],
                  kind_free_text="RxTriage.tla + RxTriageMC/Trace; harness rxtriage (prepared slot states, before/after snapshots)"),
+            dict(name="wirelayout", path="checks/wirelayout.py", serves_properties=["C19"],
+                 kind_free_text="WireLayout.tla + WireLayoutMC/Trace; generated crate harness/wiregen"),
             dict(name="pduloop", path="checks/pduloop.py", serves_properties=[p for p in ["C01","C02","C03","C06"] if p in CHECKS],
                  kind_free_text="PduLoop.tla + PduLoopMC/Trace/Monitor; harness vsched + pduloop (token scheduler over OS threads, virtual embassy-time clock)"),
         ],
